@@ -108,7 +108,7 @@ WORLD_CODE = {
 
 FORMS = ['one', 'multi', 'multi_first', 'compound', 'compound_last', 'deco', 'want', 'badwant', 'strlit', 'wsprobe',
          'decoclass', 'decoclass_last', 'decoasync', 'compound_comment', 'multi_comment', 'compound_wsline',
-         'multi_wsline']
+         'multi_wsline', 'mention', 'mention_multi', 'double_hash']
 # what may follow a block directive line before the next statement (findings F23: blank prompt lines)
 BLOCK_TAILS = {'blank1': ['>>>'], 'blank2': ['>>>', '>>>'], 'blank3ws': ['>>>   ', '>>>', '>>> '],
                'comment': ['>>> # just a comment'], 'comment_blank': ['>>> # just a comment', '>>>', '>>>']}
@@ -212,6 +212,20 @@ def stmt_lines(i, form, inline, op=None, plain=False):
     if form == 'compound_comment':
         # a comment-only line inside the statement that carries the inline directive
         return ['>>> for _k in range(1):', '...     # a comment inside the body', '...     quiet(%d)%s' % (i, c)]
+    if form == 'mention':
+        # comments that MENTION a directive without being one (the directive must open the comment); the statement's own
+        # inline directive, if any, stands in a comment of its own on a continuation line
+        if inline:
+            return ['>>> quiet(  # formerly marked xdoctest: +SKIP', '...     %d)%s' % (i, c)]
+        return ['>>> quiet(%d)  # no longer needs doctest: +SKIP' % i]
+    if form == 'mention_multi':
+        return ['>>> z%d = [  # TODO decide whether this needs xdoctest: +REQUIRES(module:xv_nx_a_zz)' % i,
+                '...     quiet(%d)]%s' % (i, c)]
+    if form == 'double_hash':
+        # a commented-out directive
+        if inline:
+            return ['>>> quiet(  ## xdoctest: +SKIP', '...     %d)%s' % (i, c)]
+        return ['>>> quiet(%d)  ## xdoctest: +SKIP' % i]
     if form == 'compound_wsline':
         # a whitespace-only line inside the body, before the line that carries the directive (finding F24)
         return ['>>> for _k in range(1):', '...     _x = 1', '...     ', '...     quiet(%d)%s' % (i, c)]
